@@ -153,8 +153,10 @@ def invariance_oracle(ctx, room, rad, rec):
             if not np.allclose(a, b, rtol=1e-12, atol=0):
                 ctx.violation('kang-truncation', 'with a histogram of %d bins the patch energies are not the first bins of the %d-bin run (late energy re-appears)' % (room['S'], room['s_long']), _inp(room), None, None)
                 return
-    # translation and cyclic permutation
-    for name, ch in (('translation', dict(offset=np.array([3.7, -1.3, 12.9]))), ('cyclic axis permutation', dict(perm=1)), ('cyclic axis permutation', dict(perm=2))):
+    # translation and cyclic permutation (dyadic offsets: with integer sides and patch size 1 the
+    # ratio side/patch sits exactly on the integer rounding edge, which a non-representable offset
+    # would push to either side; the statement says "up to rounding")
+    for name, ch in (('translation', dict(offset=np.array([3.5, -1.25, 12.0]))), ('cyclic axis permutation', dict(perm=1)), ('cyclic axis permutation', dict(perm=2))):
         r2 = dict(room, **ch)
         rad2, _, rec2 = build(r2)
         ir2 = rad2.energy_at_receiver(rec2, ignore_direct=True)
